@@ -66,12 +66,17 @@ func RunSCStress(w *tr.Writer, tid int, r *rand.Rand, nBlocks, nCommitters, nRea
 	for i := range seeds {
 		seeds[i] = r.Int63()
 	}
+	// every cache object that is about to be committed is also visible to lookups through it (a block's own cache and a
+	// transaction cache on top of it are read while the block commits): these lookups are not judged (after the commit the
+	// block's cache answers from its parent's context), they are there for the race detector
+	var live sync.Map
 	for c := 0; c < nCommitters; c++ {
 		wg.Add(1)
 		go func() {
 			defer wg.Done()
 			for i := range todo {
 				bc := mk(i)
+				live.Store(i, bc)
 				bc.Commit()
 				// once the commit has returned the block's writes are found at that block
 				res, val := "miss", ""
@@ -94,6 +99,15 @@ func RunSCStress(w *tr.Writer, tid int, r *rand.Rand, nBlocks, nCommitters, nRea
 			defer wg.Done()
 			var mine []any
 			for j := 0; j < readsPer; j++ {
+				if j%4 == 3 {
+					if x, ok := live.Load(pre + rr.Intn(max(1, nBlocks-pre))); ok {
+						bc := x.(*statecache.BlockCache)
+						if v, ok := bc.Get("k"); ok {
+							v.(*MutVal).B[0] = 'Z'
+						}
+						_, _ = statecache.NewTransactionCache(bc).Get("k")
+					}
+				}
 				b := blocks[rr.Intn(nBlocks)]
 				res, val := "miss", ""
 				if v, ok := sc.Get("k", b); ok {
